@@ -10,12 +10,12 @@ use std::collections::BTreeMap;
 
 const TYPES: [&str; 3] = ["AWS::S3::Bucket", "AWS::EC2::Volume", "AWS::IAM::Role"];
 const PROPS: [&str; 6] = ["Name", "Size", "Encrypted", "Tags", "Config", "Zone"];
-const STRS: [&str; 16] = ["abc", "a-b", "with space", "007", "true", "it's", "x/y", "AWS::S3::Bucket", "\u{fc}n\u{ef}", "", "us-west-2b", "a,b", "[x]", " padded ", "quo\"te", "back\\"];
+const STRS: [&str; 18] = ["abc", "a-b", "with space", "007", "true", "it's", "x/y", "AWS::S3::Bucket", "\u{fc}n\u{ef}", "", "us-west-2b", "a,b", "[x]", "CORP\\build-agents", "tab\there", " padded ", "quo\"te", "back\\"];
 
 fn gen_scalar(u: &mut Choices, hard: bool) -> V {
     match u.weighted(&[5, 3, 2]) {
         0 => {
-            let n = if hard { STRS.len() } else { 13 };
+            let n = if hard { STRS.len() } else { 15 };
             V::Str(STRS[u.below(n)].to_string())
         }
         1 => V::Int(*u.pick(&[0i64, 1, 50, 500, -1, 65536])),
@@ -79,7 +79,7 @@ fn gen_template(u: &mut Choices) -> Tmpl {
             types_with_props.push(ty.to_string());
         }
     }
-    let hard_strings = scalars.iter().any(|(_, _, _, v)| matches!(v, V::Str(s) if s.trim() != s || s.contains('"') || s.contains('\\')));
+    let hard_strings = scalars.iter().any(|(_, _, _, v)| matches!(v, V::Str(s) if s.trim() != s || s.contains('"') || s.ends_with('\\')));
     Tmpl { doc: V::Map(vec![("Resources".to_string(), V::Map(res))]), scalars, types_with_props, hard_strings }
 }
 
@@ -111,7 +111,7 @@ fn hazards(doc: &V) -> String {
             if let Some(V::Map(ps)) = r.get("Properties") {
                 for (k, v) in ps {
                     if let V::Str(s) = v {
-                        if s.trim() != s || s.contains('"') || s.contains('\\') {
+                        if s.trim() != s || s.contains('"') || s.ends_with('\\') {
                             hard = true;
                         }
                     }
@@ -143,6 +143,21 @@ fn hazards(doc: &V) -> String {
     }
     if hard {
         h.push("string-trim-or-escape");
+    }
+    // strings nested in list / map property values are emitted as JSON text: a backslash or a
+    // control character comes out escaped, which Guard's string literal does not undo
+    fn nested_escape(v: &V, top: bool) -> bool {
+        match v {
+            V::Str(s) => !top && s.chars().any(|c| c == '\\' || (c as u32) < 0x20),
+            V::List(l) => l.iter().any(|x| nested_escape(x, false)),
+            V::Map(m) => m.iter().any(|(k, x)| k.contains('\\') || nested_escape(x, false)),
+            _ => false,
+        }
+    }
+    if let Some(V::Map(rs)) = doc.get("Resources") {
+        if rs.iter().any(|(_, r)| matches!(r.get("Properties"), Some(V::Map(ps)) if ps.iter().any(|(_, v)| nested_escape(v, true)))) {
+            h.push("nested-json-escape");
+        }
     }
     if by.values().any(|vs| vs.len() >= 2 && vs.iter().any(|v| matches!(v, V::List(_)))) {
         h.push("list-valued-in");
